@@ -253,6 +253,9 @@ func checkCmd(args []string) int {
 			default:
 				if ok, detail := eng.CompareObserved(o.reachJob, no); !ok {
 					fmt.Printf("INCONCLUSIVE %s: formula and native build disagree: %s\n", name, detail)
+					if *verbose {
+						fmt.Printf("   inputs: %v\n   predicted: %v\n   native: %v\n   failures: %v\n", o.reachJob.Inputs, o.reachJob.Predicted, no.Observed, no.Failures)
+					}
 					inconclusive++
 					bad(2)
 				} else {
@@ -276,6 +279,10 @@ func checkCmd(args []string) int {
 					}
 				}
 				if !confirmed {
+					if nouts != nil && nouts[job.ID] != nil {
+						_, d := eng.CompareObserved(job, nouts[job.ID])
+						why += "; " + d
+					}
 					fmt.Printf("INCONCLUSIVE %s: solver counterexample for %q did not reproduce natively (%s)\n", name, ob.Msg, why)
 					inconclusive++
 					bad(2)
@@ -299,6 +306,9 @@ func checkCmd(args []string) int {
 			}
 		default:
 			fmt.Printf("INCONCLUSIVE %s: %s: %s\n", name, r.Status, r.Err)
+			for _, ob := range r.Unknowns {
+				fmt.Printf("   undecided: %s: %s (%s)\n", ob.Kind, ob.Msg, ob.Pos)
+			}
 			inconclusive++
 			bad(2)
 		}
